@@ -226,6 +226,70 @@ def worker(chunk):
     return [run_case(c, (w, pa, pb)) for c in cases]
 
 
+# ---------------------------------------------------------------- F part
+F_SOCKS = [{"proto": "tcp", "l": ["10.1.2.3", 22], "r": ["10.1.2.3", 1], "st": "01", "inode": 6001},
+           {"proto": "unix", "type": 1, "path": "/run/x", "inode": 6002},
+           {"proto": "udp6", "l": ["::1", 53], "r": ["::", 0], "st": "07", "inode": 6003}]
+F_FDS = {3: "/tmp/f", 4: "socket:[6001]", 5: "pipe:[77]", 6: "socket:[6002]", 7: "/tmp/f", 8: "socket:[6003]"}
+
+
+def f_run(arg):
+    seed, plan, mode = arg
+    import psutil
+    from vf.explore.deviate import PlanHook
+    w, pa, pb = mk_world(seed)
+    use_world(w)
+    w.set_file("/tmp/f", b"x")
+    for k, v in render(F_SOCKS).items():
+        w.set_file("/proc/net/" + k, v)
+    pa.fds = {fd: FD(t, "sock" if t.startswith("socket") else "reg") for fd, t in F_FDS.items()}
+    closed = []
+
+    def apply(world, dev, kind, subj, pid):
+        fd = int(dev.split(":")[1])
+        if fd in pa.fds:
+            del pa.fds[fd]
+            closed.append(fd)
+    hook = PlanHook(plan, apply)
+    w.hook = hook
+    w.logging = False
+    if mode == "system":
+        out = outcome(psutil.net_connections, "all")
+    else:
+        out = outcome(psutil.Process(pa.pid).net_connections, "all")
+    w.hook = None
+    bad = []
+    if out[0] != "ok":
+        bad.append(("raised-when-fd-closes:%s:%s" % (mode, out[1]), "%r with fds %r closing (plan %r)" % (out, closed, plan)))
+        return {"accesses": hook.accesses, "bad": bad}
+    rows = [norm_row(r, mode == "system") for r in out[1]]
+    for s in F_SOCKS:
+        fd = [f for f, t in F_FDS.items() if t == "socket:[%d]" % s["inode"]][0]
+        mine = [r for r in rows if r[0] == fd]
+        if fd not in closed and not mine:
+            bad.append(("holder-lost-when-another-fd-closes:%s" % mode,
+                        "fd %d (inode %d) stayed open but no row carries it: %r; closed during scan: %r" % (fd, s["inode"], rows, closed)))
+    return {"accesses": hook.accesses, "bad": bad}
+
+
+def f_part(ctx):
+    plans = []
+    for mode in ("system", "process"):
+        base = f_run((ctx.seed, (), mode))
+        plans.append((ctx.seed, (), mode))
+        for i, (kind, subj, pid) in enumerate(base["accesses"]):
+            if pid is None or not isinstance(subj, str) or "/fd" not in subj:
+                continue
+            for fd in F_FDS:
+                plans.append((ctx.seed, ((i, "close:%d" % fd),), mode))
+    res = ctx.pmap(f_run, plans)
+    viols = []
+    for pl, r in zip(plans, res):
+        for cause, msg in r["bad"]:
+            viols.append({"cause": cause, "msg": msg, "case": {"f": [[list(x) for x in pl[1]], pl[2]]}})
+    return len(plans), viols
+
+
 def build_cases(thorough):
     cases = []
     ino = 5000
@@ -290,7 +354,10 @@ def run(ctx):
         ncalls += 3 * len(c.get("kinds", KINDS)) + 2 * len(c.get("badkinds", []))
         for cause, msg in bad:
             viols.append({"cause": cause, "msg": msg, "case": c})
-    cov = {"evaluations": ncalls, "distinct_nontrivial": len({repr(c) for c in cases if c["socks"]}),
+    nf, fv = f_part(ctx)
+    viols += fv
+    ncalls += nf
+    cov = {"fd_closing_runs": nf, "evaluations": ncalls, "distinct_nontrivial": len({repr(c) for c in cases if c["socks"]}),
            "rule": "one case = one socket table (rendered from network-order bytes) + holder map; each case is queried system-wide and "
                    "per process for the listed kinds (evaluations = calls made); distinct_nontrivial = distinct non-empty tables",
            "tables": len(cases), "exhaustive": True, "samples": sample(cases, 5),
@@ -303,6 +370,9 @@ def run(ctx):
 
 
 def replay(ctx, case):
+    if "f" in case:
+        r = f_run((ctx.seed, tuple(tuple(x) for x in case["f"][0]), case["f"][1]))
+        return {"violated": bool(r["bad"]), "viols": r["bad"]}
     w, pa, pb = mk_world(ctx.seed)
     use_world(w)
     bad = run_case(case, (w, pa, pb))
